@@ -3,7 +3,16 @@ import pipeprops
 
 def run(chk, tier):
     pipeprops.run(chk, tier, "C14")
+    # ... and where the command cannot be started because a descriptor cannot be allocated
+    pipeprops.c14_fd_exhaustion(chk, tier)
 
 
 def replay(chk, path):
+    lines = [l.rstrip("\n") for l in open(path, encoding="utf-8") if l.strip() and not l.startswith("#")]
+    if lines and lines[0].strip() == "fdexhaust":
+        import common as C
+        chk.obligations(C.props_check("C14", pipeprops.DEPS["C14"]))
+        C.build_harness()
+        pipeprops.c14_fd_exhaustion(chk, "quick", explicit=[pipeprops.tpl_from_json(lines[1])])
+        return
     pipeprops.replay(chk, path, "C14")
